@@ -13,6 +13,30 @@ S_UNITS = ['a', 'x', '\xe9', '日', '\U0001f600', '\n', '\r\n', '\r']
 S_WIDE = ['a', '\xe9', '日', '\U0001f600']
 LINE_OPS = ('rl', 'rL', 'rs', 'n', 'it', 'dr')
 ARG_OPS = ('r', 'rL', 'sk', 'sc', 'se')
+# other spellings of the same operation (same token in the model line, same reference call):
+#   tp = f.pos, gb = f.buf, lp = f.len (property, not len(f)), fn = f.fileno() (rolls over first), rm = f.read(-1)
+ALIAS = {'tp': 't', 'gb': 'g', 'lp': 'l', 'fn': 'ro', 'rm': 'ra'}
+WL_FORMS = ('list', 'gen', 'iter', 'tuple')
+# code points on the edges of the 1 / 2 / 3 / 4 byte classes of UTF-8 (and around the surrogate gap, BOM)
+UTF8_EDGES = ['\x7f', '\x80', '\u07ff', '\u0800', '\ud7ff', '\ue000', '\ufeff', '\uffff', '\U00010000', '\U0010ffff']
+
+
+def base(op):
+    """the operation an op stands for (aliases resolved)"""
+    return ALIAS.get(op[0], op[0])
+
+
+def wl_pieces(op, kind):
+    return [bytes.fromhex(p) for p in op[1]] if kind == 'B' else list(op[1])
+
+
+def written(op, kind):
+    """what a write / writelines op appends (bytes or str), None for other ops"""
+    if op[0] == 'w':
+        return bytes.fromhex(op[1]) if kind == 'B' else op[1]
+    if op[0] == 'wl':
+        return (b'' if kind == 'B' else '').join(wl_pieces(op, kind))
+    return None
 
 
 def hx(b):
@@ -60,6 +84,25 @@ def apply_op(f, op, kind, is_ref):
     name = op[0]
     if name == 'w':
         f.write(bytes.fromhex(op[1]) if kind == 'B' else op[1])
+        return None
+    if name == 'wl':
+        pieces = wl_pieces(op, kind)
+        form = op[2] if len(op) > 2 else 'list'
+        arg = (pieces if form == 'list' else tuple(pieces) if form == 'tuple' else iter(pieces) if form == 'iter'
+               else (p for p in pieces))        # 'gen': a one-shot generator
+        f.writelines(arg)
+        return None
+    if name == 'rm':
+        return f.read(-1)
+    if name == 'tp':
+        return f.tell() if is_ref else f.pos
+    if name == 'gb':
+        return f.getvalue() if is_ref else f.buf
+    if name == 'lp':
+        return len(f.getvalue()) if is_ref else f.len
+    if name == 'fn':
+        if not is_ref:
+            f.fileno()
         return None
     if name == 'r':
         return f.read(op[1])
@@ -114,7 +157,7 @@ def reference(case):
     for op in case['ops']:
         name = op[0]
         n = len(ref.getvalue())
-        if name == 'w' and ref.tell() != n:
+        if name in ('w', 'wl') and ref.tell() != n:
             appending = False
             in_domain = False              # the statement is about appending writes
         if name == 'sk' and op[1] > n:
@@ -128,7 +171,7 @@ def reference(case):
         if not in_domain:
             break
         v = apply_op(ref, op, kind, True)
-        if name in ('w', 'ro'):
+        if name in ('w', 'wl', 'ro', 'fn'):
             v = None
         recs.append([['STOP'] if v is StopIteration else canon(v, text), ref.tell()])
     return in_domain, appending, recs
@@ -165,12 +208,19 @@ class C18(Property):
     QUICK_BUDGET_S = 38
     THOROUGH_BUDGET_S = 600
     RULE = ('a case is one whole history on one object. B/S: SpooledBytesIO / SpooledStringIO(max_size) and a list of '
-            'write / read(n) / read() / readline() / readline(n) (bytes) / readlines() / seek(p) / seek(n, SEEK_CUR) / '
-            'seek(.., SEEK_END) / tell / getvalue / len / next / list(f) / for-loop / explicit rollover() ops; writes append (a seek to the end '
-            'is inserted when needed), seek targets lie inside the data; every history ends with getvalue and tell, and '
-            'tell() is recorded after every op; the same history is run for max_size in {1, a mid value, larger than the '
-            'data} and (S) READ_CHUNK_SIZE in {small patched values, the real one}. Exhaustive: every op sequence up to '
-            'length 2 (3 thorough) over a 20-op alphabet after one write, for 2-3 contents; random histories over units '
+            'write / writelines(list | tuple | iterator | one-shot generator of pieces, also empty) / read(n) / read() / '
+            'read(-1) / readline() / readline(n) (bytes) / readlines() / seek(p) / seek(n, SEEK_CUR) / seek(.., SEEK_END) / '
+            'tell / f.pos / getvalue / f.buf / len(f) / f.len / next / list(f) / for-loop / explicit rollover() / fileno() '
+            'ops; writes append (a seek to the end is inserted when needed), seek targets lie inside the data; every '
+            'history ends with getvalue and tell, and tell() is recorded after every op; the same history is run for '
+            'max_size in {1, a mid value, larger than the data} and (S) READ_CHUNK_SIZE in {small patched values, the real '
+            'one}. First the small families: every str.splitlines-only boundary x every way of reading; every pair of '
+            'code points on the edges of the 1/2/3/4-byte classes of UTF-8; "sandwich" = an op (every op and every '
+            'spelling), an appending write, the SAME op again, one probe (stale caches, one-shot arguments); "readahead" = '
+            'nothing / readline / read(2) / next after seek(0), then every op, then a read before any getvalue '
+            're-synchronises; MultiFileReader read, seek(0), read for every partition; the shrunk failing inputs of past '
+            'hand mutations (corpus). Then exhaustive: every op sequence up to '
+            'length 2 (3 thorough) over a 20-op alphabet after one write, for 2-4 contents; random histories over units '
             'with 1-4 byte characters and LF / CRLF / CR; adversarial: lines of 70-75 and 142-147 characters with CR / CRLF '
             'on the 72 / 144 read edge of the codec reader, multi-byte reads that overshoot, texts longer than '
             'READ_CHUNK_SIZE. '
@@ -185,7 +235,10 @@ class C18(Property):
                    'the reference for SpooledStringIO is io.StringIO(newline=""): LF, CR and CRLF end a line, untranslated',
                    'seek(n, SEEK_CUR) / seek(n, SEEK_END) on SpooledStringIO are judged as code-point moves (n forward / '
                    'only n = 0 from the end), the forms io.StringIO itself supports being the n = 0 ones',
-                   'f.rollover() (what fileno() does first) may be called at any point: io reference = no-op',
+                   'f.rollover() / f.fileno() (which rolls over first) may be called at any point: io reference = no-op',
+                   'f.pos, f.buf, f.len, read(-1) are spellings of tell(), getvalue(), len(f), read(): same model operation, '
+                   'same io reference call; writelines(iterable) is judged against io.writelines of the same pieces and '
+                   'modelled as the loop of writes it is (Lean: = one write of the joined pieces)',
                    'readlines(sizehint > 0) and readline(0) are outside the statement (CPython\'s BytesIO and BufferedRandom '
                    'differ on the hint themselves); positions beyond the data are outside the statement']
     EXTRA_TRUSTED = ['CPython 3.12 codecs.StreamReader.read/readline/seek/reset and StreamRecoder wrappers, transliterated by '
@@ -214,13 +267,15 @@ class C18(Property):
     # ------------------------------------------------------------------ generation
     def cases(self, budget_s):
         rng = self.rng
+        for c in self.small_families(rng):      # small, diverse, adversarial: first
+            yield c
         for c in self.exhaustive(3 if self.thorough else 2):
             yield c
         for c in self.mfr_exhaustive(3 if self.thorough else 2):
             yield c
         for c in self.adversarial(rng, 200 if self.thorough else 15):
             yield c
-        n = 150000 if self.thorough else 7000
+        n = 150000 if self.thorough else 10000
         for i in range(n):
             r = rng.random()
             if r < 0.2:
@@ -232,6 +287,8 @@ class C18(Property):
 
     def deep_cases(self, budget_s):
         rng = self.rng
+        for c in self.small_families(rng):
+            yield c
         for c in self.adversarial(rng, 40):
             yield c
         for c in self.exhaustive(3):
@@ -245,11 +302,117 @@ class C18(Property):
                                                                   long=rng.random() < 0.2)):
                     yield c
 
+    # ------------------------------------------------------------------ small families (round 2)
+    def small_families(self, rng):
+        for c in self.exotic_family():
+            yield c
+        for c in self.utf8_family():
+            yield c
+        for c in self.mfr_seek_family():
+            yield c
+        for c in self.sandwich():
+            yield c
+        for c in self.readahead():
+            yield c
+
+    @staticmethod
+    def alpha_x(kind, n):
+        """every operation and every spelling of it, one or two arguments each"""
+        if kind == 'B':
+            wls = [['wl', ['79', '', '0a7a'], 'list'], ['wl', ['c3', 'a9'], 'gen'], ['wl', [], 'gen'], ['wl', ['71'], 'iter']]
+        else:
+            wls = [['wl', ['y', '', '\n\xe9'], 'list'], ['wl', ['\xe9', '日'], 'gen'], ['wl', [], 'gen'], ['wl', ['q'], 'iter']]
+        return ([['r', 0], ['r', 1], ['r', 2], ['ra'], ['rm'], ['rl'], ['rs'], ['sk', 0], ['sk', 1], ['sk', n], ['sc', 1],
+                 ['se', 0], ['t'], ['tp'], ['g'], ['gb'], ['l'], ['lp'], ['n'], ['it'], ['dr'], ['ro'], ['fn']] + wls +
+                [['rL', 2] if kind == 'B' else ['r', 3]])
+
+    def variants(self, case, mid=None):
+        """rolled over from the first byte / (by a later write: `mid`) / never; patched and real READ_CHUNK_SIZE"""
+        if reference(case)[0] and reference(case)[1]:
+            for ms in ((1, 1000) if mid is None else (1, mid, 1000)):
+                if case['k'] == 'S':
+                    for ch in (2, None):
+                        yield dict(case, ms=ms, chunk=ch)
+                else:
+                    yield dict(case, ms=ms)
+
+    def sandwich(self):
+        """an operation, an appending write, the SAME operation again, one probe: whatever an operation remembers
+        (a cached length / value / position, a one-shot argument) is stale the second time"""
+        for kind, c1, c2 in (('B', b'ab\nc', b'\xc3\xa9\n'), ('B', b'\n\xc3\xa9\r\nx', b'y'),
+                             ('S', 'a\xe9\n日b', '\xe9\r\nz'), ('S', 'x\r\ny', '\U0001f600')):
+            enc = (lambda b: b.hex()) if kind == 'B' else (lambda t: t)
+            n = len(c1)
+            for pre in ([], [['sk', 0]], [['sk', 1]]):
+                for a in self.alpha_x(kind, n):
+                    for b in (['ra'], ['rl'], ['t'], ['n'], ['l']):
+                        ops = ([['w', enc(c1)]] + pre + [a] + [['se', 0], ['w', enc(c2)]] + pre + [a] + [b] +
+                               [['g'], ['t']])
+                        for c in self.variants({'k': kind, 'ops': [list(o) for o in ops]},
+                                               mid=len(c1 if kind == 'B' else c1.encode('utf-8')) + 2):
+                            yield c
+
+    def readahead(self):
+        """nothing, or a read that leaves the codec reader holding read-ahead (a whole short text after readline(), a
+        partial character after read(2)); then every operation; then a read, BEFORE any getvalue() re-synchronises
+        stream and position"""
+        for kind, c in (('B', b'a\xc3\xa9\nbc\r\nd'), ('S', 'a\xe9\nb日\r\nc'), ('S', '\U0001f600\ra\n\n\xe9')):
+            enc = (lambda b: b.hex()) if kind == 'B' else (lambda t: t)
+            for first in ([], [['rl']], [['r', 2]], [['n']]):
+                for x in self.alpha_x(kind, len(c)):
+                    for y in (['ra'], ['n'], ['t'], ['rl']):
+                        ops = [['w', enc(c)], ['sk', 0]] + first + [x, y, ['g'], ['t']]
+                        for cse in self.variants({'k': kind, 'ops': [list(o) for o in ops]}):
+                            yield cse
+
+    def exotic_family(self):
+        """every str.splitlines boundary that is not a line end for io.StringIO x every way of reading: readline /
+        next / iteration cut there (known finding), readlines() / read() must not, nor line ops after a seek past it"""
+        i = 0
+        for ex in EXOTIC:
+            for text in ('a' + ex + 'b\nc', '\xe9' + ex + '\r\n' + ex):
+                for tail in ([['rl']], [['n']], [['it']], [['dr']], [['rs']], [['ra']], [['r', 2], ['rs']],
+                             [['r', 1], ['gb'], ['rs']],
+                             # line ops that do not READ the boundary (seek past it / it ends the text): must agree
+                             # with io.StringIO (Lean: string_refines_StringIO_partial_tight)
+                             [['sk', 2], ['rl'], ['n'], ['n']], [['sk', 2], ['dr']] if text.endswith(ex) else [['sk', 2], ['it']]):
+                    i += 1
+                    yield {'k': 'S', 'ms': (1, 100)[i % 2], 'chunk': (2, None, 5)[i % 3],
+                           'ops': [['w', text], ['sk', 0]] + tail + [['g'], ['t']]}
+
+    def utf8_family(self):
+        """code points on the edges of the 1 / 2 / 3 / 4-byte classes of UTF-8, in every pair"""
+        for a in UTF8_EDGES:
+            for b in UTF8_EDGES:
+                text = a + 'x' + b + '\n' + b + a
+                ops = [['w', text], ['sk', 0], ['r', 1], ['t'], ['r', 2], ['sk', 4], ['ra'], ['l'], ['sk', 1], ['rs'],
+                       ['se', 0], ['wl', [b, a], 'gen'], ['sk', 5], ['rm'], ['tp'], ['g'], ['t']]
+                for c in self.variants({'k': 'S', 'ops': ops}):
+                    yield c
+
+    def mfr_partitions(self):
+        for text, content in ((False, b'ab\xc3\xa9'), (True, 'a\xe9日b')):
+            n = len(content)
+            for nf in range(1, 4):
+                for cuts in itertools.combinations_with_replacement(range(n + 1), nf - 1):
+                    edges = [0] + list(cuts) + [n]
+                    parts = [content[edges[i]:edges[i + 1]] for i in range(nf)]
+                    yield text, (parts if text else [p.hex() for p in parts])
+
+    def mfr_seek_family(self):
+        """read, seek(0), read - for every partition (a seek(0) needs a read on each side to be seen)"""
+        reads = [['r', 1], ['r', 2], ['r', 3], ['r', 9], ['ra'], ['r', 0]]
+        for text, files in self.mfr_partitions():
+            for a in reads:
+                for c in reads:
+                    for mk in (('io', 'spooled') if len(files) == 2 else ('io',)):
+                        yield {'k': 'M', 'text': text, 'mk': mk, 'files': list(files), 'ops': [list(a), ['s'], list(c)]}
+
     @staticmethod
     def data_len(case):
         if case['k'] == 'B':
-            return sum(len(op[1]) // 2 for op in case['ops'] if op[0] == 'w')
-        return sum(len(op[1].encode('utf-8')) for op in case['ops'] if op[0] == 'w')
+            return sum(len(written(op, 'B')) for op in case['ops'] if op[0] in ('w', 'wl'))
+        return sum(len(written(op, 'S').encode('utf-8')) for op in case['ops'] if op[0] in ('w', 'wl'))
 
     def with_sizes(self, rng, case, chunks=None):
         """the same history for max_size 1, a mid value, larger than the data (and chunk sizes for S)"""
@@ -312,14 +475,18 @@ class C18(Property):
         for i in range(nops):
             n = len(ref.getvalue())
             o = rng.choice(['w', 'w', 'r', 'r', 'ra', 'rl', 'rl', 'rs', 'sk', 'sk', 'sc', 'se', 't', 'g', 'l', 'n', 'n',
-                            'it', 'dr', 'rL', 'ro'] if i else ['w'])
-            if o == 'w':
+                            'it', 'dr', 'rL', 'ro', 'wl', 'tp', 'gb', 'lp', 'fn', 'rm'] if i else ['w', 'w', 'w', 'wl'])
+            if o in ('w', 'wl'):
                 if ref.tell() != n and not overwrite:
                     op = rng.choice([['sk', n], ['se', 0]])
                     ops.append(op)
                     apply_op(ref, op, kind, True)
-                p = payload()
-                op = ['w', p if text else p.hex()]
+                if o == 'w':
+                    p = payload()
+                    op = ['w', p if text else p.hex()]
+                else:
+                    ps = [payload() for _ in range(rng.choice([0, 1, 2, 3]))]
+                    op = ['wl', [q if text else q.hex() for q in ps], rng.choice(WL_FORMS)]
             elif o == 'r':
                 op = ['r', rng.choice([0, 1, 1, 2, 3, 4, rng.randint(0, n + 2)])]
             elif o == 'rL':
@@ -370,14 +537,19 @@ class C18(Property):
                     yield c
         # texts longer than the real READ_CHUNK_SIZE (the chunked loops of seek / len with the real constant)
         real = getattr(self, '_chunk_const', 21333)
-        for rep in range(3 if self.thorough else 1):
-            unit = rng.choice(['ab\xe9\n', 'x日\r\ny'])
+        for rep in range(8 if self.thorough else 3):
+            unit = rng.choice(['ab\xe9\n', 'x日\r\ny', '\U0001f600\xe9'])
             text = unit * ((real + rng.randint(5, 900)) // len(unit) + 1)
             tgt = rng.randint(real - 3, min(len(text), real + 600))
-            case = {'k': 'S', 'ops': [['w', text], ['sk', tgt], ['r', 5], ['t'], ['l'], ['rl'], ['sk', real], ['r', 2],
-                                      ['se', 0], ['w', 'tail'], ['sk', len(text) - 1], ['ra'], ['t']]}
-            for ms in (1, 10 ** 7):
-                yield dict(case, ms=ms, chunk=None)
+            tail = [[['sk', tgt], ['r', 5], ['t'], ['l'], ['rl'], ['sk', real], ['r', 2], ['se', 0], ['w', 'tail'],
+                     ['sk', len(text) - 1], ['ra'], ['t']],
+                    [['sk', real - 1], ['r', 3], ['tp'], ['lp'], ['fn'], ['r', 2], ['sc', real // 2 if len(text) > 2 * real else 1],
+                     ['rl'], ['t'], ['se', 0], ['wl', ['\xe9', 'z'], 'gen'], ['sk', real + 1], ['r', 4], ['t']],
+                    [['sk', 0], ['rl'], ['sk', tgt], ['n'], ['t'], ['gb'], ['r', 1], ['sk', real], ['rs'], ['t']]][rep % 3]
+            case = {'k': 'S', 'ops': [['w', text]] + tail}
+            if reference(case)[0]:
+                for ms in (1, 10 ** 7):
+                    yield dict(case, ms=ms, chunk=None)
         # str.splitlines boundaries that io.StringIO does not treat as line ends (known finding)
         for _ in range(max(2, n // 3)):
             ex = rng.choice(EXOTIC)
@@ -446,10 +618,12 @@ class C18(Property):
         for op in case['ops']:
             if op[0] == 'w':
                 toks.append('w' + (hx(op[1].encode('utf-8')) if case['k'] == 'S' else (op[1] or '-')))
+            elif op[0] == 'wl':
+                toks.append('W' + ','.join(hx(p.encode('utf-8')) if case['k'] == 'S' else (p or '-') for p in op[1]))
             elif op[0] in ARG_OPS:
                 toks.append('%s%d' % (op[0], op[1]))
             else:
-                toks.append(op[0])
+                toks.append(base(op))
         return ' '.join(toks)
 
     # ------------------------------------------------------------------ implementation
@@ -470,8 +644,8 @@ class C18(Property):
                 f = (iu.SpooledStringIO if text else iu.SpooledBytesIO)(max_size=case['ms'])
                 for op in case['ops']:
                     v = apply_op(f, op, kind, False)
-                    if op[0] in ('w', 'ro'):
-                        v = None        # what write() / rollover() return is not part of the statement
+                    if op[0] in ('w', 'wl', 'ro', 'fn'):
+                        v = None        # what write() / writelines() / rollover() / fileno() return is not part of the statement
                     rec = ['STOP'] if v is StopIteration else canon(v, text)
                     out.append({'r': rec, 't': f.tell()})
                     self.stats['op:' + op[0]] = self.stats.get('op:' + op[0], 0) + 1
@@ -572,20 +746,20 @@ class C18(Property):
                     i, op, o['exc'], o.get('msg'), show(exp[i][0])), i, op, None, exp[i][0])
             want, want_tell = exp[i]
             if o['r'] != want:
-                tag = ('lines' if op[0] in LINE_OPS else 'read' if op[0] in ('r', 'ra') else
-                       'content' if op[0] == 'g' else 'position')
+                tag = ('lines' if base(op) in LINE_OPS else 'read' if base(op) in ('r', 'ra') else
+                       'content' if base(op) == 'g' else 'position')
                 return self.fail(tag, 'op %d %r returned %s, io.%s gives %s (max_size=%s)' % (
                     i, op, show(o['r']), 'StringIO' if text else 'BytesIO', show(want), case['ms']), i, op, o['r'], want)
             if o['t'] != want_tell:
                 return self.fail('tell_after', 'tell() after op %d %r is %r, io.%s is at %d (max_size=%s)' % (
                     i, op, o['t'], 'StringIO' if text else 'BytesIO', want_tell, case['ms']), i, op, o['t'], want_tell)
-            if op[0] in ('sk', 'sc', 'se', 'l', 'g', 'it'):
+            if base(op) in ('sk', 'sc', 'se', 'l', 'g', 'it'):
                 seen_move = True
-            if seen_move and op[0] in ('r', 'ra', 'rl', 'rL', 'rs', 'n', 'dr', 'it') and o['r'] not in (['D', '-'], ['L', []], ['STOP']):
+            if seen_move and base(op) in ('r', 'ra', 'rl', 'rL', 'rs', 'n', 'dr', 'it') and o['r'] not in (['D', '-'], ['L', []], ['STOP']):
                 useful = True
         n = self.data_len(case)
         rolled = n >= case['ms']
-        wide = text and any(ord(ch) > 127 for op in case['ops'] if op[0] == 'w' for ch in op[1])
+        wide = text and any(ord(ch) > 127 for op in case['ops'] if op[0] in ('w', 'wl') for ch in written(op, 'S'))
         self._nt = bool(useful and n and (rolled or wide))
         return None
 
@@ -623,8 +797,8 @@ class C18(Property):
             return False
         if getattr(failure, 'model_agrees', None) is False:
             return False
-        written = ''.join(op[1] for op in case['ops'][:d['i']] if op[0] == 'w')
-        if not any(ch in EXOTIC for ch in written):
+        text_so_far = ''.join(written(op, 'S') for op in case['ops'][:d['i']] if op[0] in ('w', 'wl'))
+        if not any(ch in EXOTIC for ch in text_so_far):
             return False
         got, want = d['got'], d['want']
         if not got or not want or got[0] != want[0] or got[0] not in ('D', 'L'):
@@ -675,6 +849,19 @@ class C18(Property):
                     c = dict(case, ops=ops[:i] + [['w', op[1][:j] + op[1][j + step:]]] + ops[i + 1:])
                     if ok(c):
                         yield c
+            elif op[0] == 'wl':
+                cands = [['w', written(op, case['k']).hex() if case['k'] == 'B' else written(op, 'S')]]
+                cands += [['wl', op[1][:j] + op[1][j + 1:]] + op[2:] for j in range(len(op[1]))]
+                if len(op) > 2 and op[2] != 'list':
+                    cands.append(['wl', op[1], 'list'])
+                for new in cands:
+                    c = dict(case, ops=ops[:i] + [new] + ops[i + 1:])
+                    if ok(c):
+                        yield c
+            elif op[0] in ALIAS:
+                c = dict(case, ops=ops[:i] + [[ALIAS[op[0]]]] + ops[i + 1:])
+                if ok(c):
+                    yield c
             elif op[0] in ARG_OPS and op[1] > 0:
                 for v in {0, op[1] // 2, op[1] - 1}:
                     if v < op[1]:
